@@ -158,6 +158,8 @@ def finding_class(p: gen_project.Project) -> str | None:
     bases = [x.rsplit("/", 1)[-1] for x in fs]
     if len(set(bases)) < len(bases):
         return "file-scripts-same-basename"
+    if p.meta.get("two_sources"):
+        return "two-sources-one-archive-name"
     for e in p.meta.get("packages") or []:
         to = e.get("to") or ""
         if to.startswith("/") or ".." in to.split("/"):
@@ -287,8 +289,16 @@ def compare_model(ctx: core.Ctx, sig: Any, b: bc.Built, d: bc.WheelDesc, replies
     if dts != {",".join(map(str, bc.zip_dos_time(plan[1].split(","))))}:   # zip stores seconds with 2 s resolution
         dis += 1
         ctx.disagree("date-time", sig, sorted(dts), plan[1])
-    if plan[2] != "1":
+    if plan[2][:1] != "1":
         ctx.count("model:DistinctTargets-false")
+    if plan[2][1:2] != "1":
+        ctx.count("model:ConfigDistinct-false")
+    else:
+        ctx.count("model:ConfigDistinct-true")
+        names = [m["name"] for m in d.members]
+        if len(set(names)) != len(names):      # would contradict theorem builder_each_once
+            dis += 1
+            ctx.disagree("config-distinct", sig, sorted(n for n in set(names) if names.count(n) > 1)[:3], "ConfigDistinct holds")
     return dis
 
 
@@ -341,6 +351,13 @@ def check_project(ctx: core.Ctx, p: gen_project.Project, sde: str | None, stream
                             vkey = fclass
                         elif fclass == "package-to-parent-directory" and ("is not a relative" in msg):
                             vkey = fclass
+                        elif fclass == "two-sources-one-archive-name" and ("more than once" in msg or "RECORD" in msg):
+                            vkey = fclass
+                        if vkey in PENDING_CLASSES:
+                            ctx.count("pending-finding:" + vkey)
+                            if not any(vkey in n for n in ctx.notes):
+                                ctx.notes.append(f"pending finding {vkey}: {msg}")
+                            continue
                         ctx.violate(vkey, f"{kind}/{api} wheel of {p.name} {p.version}: {msg}", wit)
                     if prep_name not in d.dist_info_dirs:
                         ctx.violate("prepared-name:" + key, f"prepare_metadata_for_build_wheel returned {prep_name!r}, wheel contains {d.dist_info_dirs}", wit)
@@ -424,7 +441,15 @@ def findings_corpus() -> list[gen_project.Project]:
     up = _tiny("to-parent", 'packages = [{ include = "my_pkg", to = "../up" }]\n',
                {"my_pkg/__init__.py": (b"x = 1\n", 0o644)},
                {"packages": [{"include": "my_pkg", "to": "../up"}]})
-    return [dup, up]
+    two = _tiny("two-sources", 'packages = [{ include = "pkg", from = "a" }, { include = "pkg", from = "b" }]\n',
+                {"a/pkg/__init__.py": (b"A = 1\n", 0o644), "b/pkg/__init__.py": (b"B = 1\n", 0o644)},
+                {"packages": [{"include": "pkg", "from": "a"}, {"include": "pkg", "from": "b"}], "two_sources": True})
+    return [dup, up, two]
+
+
+# classes whose witness reproduces on the current tree but which the lead has not yet triaged (fix or known finding):
+# reported as a note and counted, not as a violation; remove the key here once known_findings.json / a repo fix has it
+PENDING_CLASSES = {"two-sources-one-archive-name"}
 
 
 def perm_stream(ctx: core.Ctx) -> None:
